@@ -282,6 +282,27 @@ class Prog:
             self.st += outs
         self.emit(bytes([code]), 1)
 
+    def a_boundary(self):
+        """numeric op codes on operands sitting on their boundaries (equal, adjacent, zero, sign change, 4/5-byte edge)"""
+        rng = self.rng
+        vals = [0, 1, -1, 2, 5, 4, 6, 127, 128, -128, 2**31 - 1, -(2**31) + 1, 2**31 - 2]
+        r = rng.random()
+        if r < 0.35:
+            mn, mx = sorted(rng.sample(vals, 2)) if rng.random() < 0.8 else (5, 5)
+            x = rng.choice([mn, mx, mn - 1, mx - 1, mx + 1, mn + 1])
+            if abs(x) >= 2**31:
+                x = mn
+            self.emit(push_num(x) + push_num(mn) + push_num(mx) + b"\xa5", 1)
+        elif r < 0.8:
+            a = rng.choice(vals)
+            b = rng.choice([a, a + 1 if a < 2**31 - 1 else a, a - 1 if a > -(2**31) + 1 else a, rng.choice(vals), 0])
+            code = rng.choice([0x93, 0x94, 0x9A, 0x9B, 0x9C, 0x9E, 0x9F, 0xA0, 0xA1, 0xA2, 0xA3, 0xA4])
+            self.emit(push_num(a) + push_num(b) + bytes([code]), 1)
+        else:
+            a = rng.choice(vals)
+            self.emit(push_num(a) + bytes([rng.choice([0x8B, 0x8C, 0x8F, 0x90, 0x91, 0x92])]), 1)
+        self.st.append(N)
+
     def a_pickroll(self):
         rng = self.rng
         d = len(self.st)
@@ -409,8 +430,10 @@ class Prog:
             r = rng.random()
             if r < 0.30:
                 self.a_push()
-            elif r < 0.72:
+            elif r < 0.65:
                 self.a_op()
+            elif r < 0.72:
+                self.a_boundary()
             elif r < 0.77:
                 self.a_pickroll()
             elif r < 0.82:
